@@ -376,6 +376,10 @@ def main():
     side['strings'] = I.rev
     side['consts'] = {'ENT': ent, 'HL': hl, 'CTX': ctx}
     os.makedirs(WORKGEN, exist_ok=True)
+    # extended serialisation for the end-to-end document model (segment / element definitions, code sets): tools/xdoc.py
+    sys.path.insert(0, os.path.dirname(os.path.abspath(__file__)))
+    import xdoc
+    side['doc'] = xdoc.build(MAPDIR, maps, dataele, I, WORKGEN)
     with open(os.path.join(WORKGEN, 'tables.json'), 'w') as f:
         json.dump(side, f)
     print('xlate: %d map files translated, %d failed, %d strings' % (len(maps), len(failed), len(I.rev)))
